@@ -206,6 +206,7 @@ func ruleFilterOps(r *Report) {
 				}
 				if methodOn(cc, "github.com/kelindar/bitmap", "Bitmap", "And") {
 					rv, _ := normE(bitmapRecv(cc.Args[0]), env, false)
+					rv = helperResult(rv) // txn.selectionOf(chunk) for chunk.OfBitmap(txn.index)
 					if c, isC := rv.(*ssa.Call); isC && calleeIs(&c.Call, "(commit.Chunk).OfBitmap") {
 						if fr, isF := loadedField(c.Call.Args[1]); isF && fr.Struct == "column.Txn" && fr.Field == "index" {
 							andSite, andCall, andEnv = site, cc, env
@@ -2165,4 +2166,25 @@ func loopsBack(a, b *ssa.BasicBlock) bool {
 		}
 	}
 	return false
+}
+
+// helperResult: the value an unexported one-result helper returns on its only return, when v is a
+// call of such a helper (read in the helper's own body); v otherwise.
+func helperResult(v ssa.Value) ssa.Value {
+	for i := 0; i < 3; i++ {
+		c, ok := v.(*ssa.Call)
+		if !ok {
+			return v
+		}
+		sc := c.Call.StaticCallee()
+		if sc == nil || !isHelper(sc) || sc.Signature.Results().Len() != 1 {
+			return v
+		}
+		rets := returnsOf(originOf(sc))
+		if len(rets) != 1 || len(rets[0].Results) != 1 {
+			return v
+		}
+		v = norm(rets[0].Results[0])
+	}
+	return v
 }
